@@ -10,6 +10,10 @@ Model driver for C18. Line protocol (fields separated by one space; byte strings
                                              | err <status> cc=<0|1> fan=<0|1> leak=0
   getseq <cidhex> <n> (<reqhex> <fwdhex> <local> <remotes> <order>){n}   -- n requests through ONE Conn
                                              → the n `get` results joined by " | "
+  getrace <cidhex> <reqhex> <rounds> <remotes> -- local 404, not forwarded; all non-hanging remotes
+        answer at the same moment (the driver repeats this <rounds> times with staggers of 0..49 µs)
+                                             → the distinct `get` results over all completion orders
+                                               (permutations of the answering remotes), joined by " | "
   legacy <idhex> <expecthex> <pdhfieldhex> <mthex>   -- rewriteSignatures on a 200 record
                                              → ok <mthex> | err invalid-stream|pdh-field|hash
   legacyraw reqerr|status:<code>|badjson     → reqerr | pass <code> | err json
@@ -100,6 +104,21 @@ def getStep (cid : Str) (req fwd loc rems ord : String) : String :=
     | none => "bad-op"
   | _, _, _, _ => "bad-op"
 
+def renderGet (s : Script) (nrem : Nat) (r : Result) : String :=
+  let tail := " cc=" ++ flag (needsClientCancel md5Str s) ++ " fan=" ++ flag (fansOut md5Str s && nrem != 0) ++ " leak=0"
+  match r with
+  | .ok c => "ok " ++ enhex c.uuid ++ " " ++ enhex c.manifest ++ tail
+  | .error st => "err " ++ toString st ++ tail
+
+def isHang : Answer → Bool
+  | .hang => true
+  | _ => false
+
+def getRace (cid req : Str) (rems : List (Str × Answer)) : String :=
+  let live := rems.filter (fun p => !isHang p.2)
+  let s : Script := { clusterID := cid, req := req, fwd := [], loc := .err 404, remotes := rems, order := live }
+  " | ".intercalate ((collectionGetAnyOrder md5Str s).map (renderGet s rems.length)).eraseDups
+
 def getSeq (cid : Str) : List String → Option (List String)
   | [] => some []
   | req :: fwd :: loc :: rems :: ord :: rest =>
@@ -137,6 +156,11 @@ def step (line : String) : String :=
       | some rs => " | ".intercalate rs
       | none => "bad-op"
     | _, _ => "bad-op"
+  | ["getrace", cid, req, rounds, rems] =>
+    match unhex cid, unhex req, rounds.toNat?, parseRemotes rems with
+    | some cid, some req, some n, some rems =>
+      if n == 0 || rems.isEmpty then "bad-op" else getRace cid req rems
+    | _, _, _, _ => "bad-op"
   | ["legacy", id, expect, field, mt] =>
     match unhex id, unhex expect, unhex field, unhex mt with
     | some id, some expect, some field, some mt =>
